@@ -16,11 +16,20 @@
 //	        before/after, and {get desc} again after the topic was unloaded and loaded from the store)
 //	NG <chan> <A|E|P> <tok> <tok>    {sub topic=new|nch set:{desc:{defacs}}} by a fresh user
 //	    -> NG code= store= cache= desc= redesc=
-//	AC <A|E|P> <tok> <tok>           {acc user=new scheme=basic desc:{defacs}} from an anonymous session
+//	AC <A|E|P> <tok> <tok> [basic]   {acc user=new desc:{defacs}} from an anonymous session (scheme basic, or an
+//	                                 authenticator of this driver that accepts everything)
 //	    -> AC code= store= cache= desc=      (users row; then the new user's 'me' topic and its {get desc})
 //	PP <u1auth> <A|E|P> <tok> <tok>  {sub topic=usrB set:{desc:{defacs}}} by user A whose own default
 //	    auth access is u1auth: the permissions GIVEN to B in the new p2p topic
 //	    -> PP code= store= cache=
+//
+//	SS <grp|p2p> <set|sub|other|off> <af> <want> <given> <tok>
+//	    user U holds an EXISTING subscription want/given on a group topic owned by H (default auth access af)
+//	    or on a p2p topic with H; set: U attaches, then {set sub:{mode}}; sub: U's attaching {sub} carries
+//	    set:{sub:{mode}}; other: H attaches and sends {set sub:{user:U,mode}}; off: U, not attached, sends
+//	    {set sub:{mode}} (hub: replyOfflineTopicSetSub)
+//	    -> SS code= att= pre=<want>/<given> store=<want>/<given> cache=<want>/<given>|-
+//	       (att: the requesting session was attached when the request was sent; pre: the stored row then)
 //
 // A text token is "_" (the JSON key is absent), "-" (the empty string) or the hex bytes of the text;
 // the defacs token is A (no desc / no set at all), E (desc without defacs), P (defacs object present).
@@ -42,6 +51,20 @@ import (
 	"github.com/tinode/chat/server/store"
 	"github.com/tinode/chat/server/store/types"
 )
+
+// {acc user=new} needs an authenticator; "basic" hashes the password with bcrypt (~0.1 s per account), so
+// most account scenarios use this one, which accepts every secret and stores nothing.  The code under
+// observation (the defacs block of replyCreateUser) does not depend on the authenticator.
+type c05sFakeAuth struct {
+	auth.AuthHandler
+}
+
+func (c05sFakeAuth) IsUnique(secret []byte, remoteAddr string) (bool, error) { return true, nil }
+
+func (c05sFakeAuth) AddRecord(rec *auth.Rec, secret []byte, remoteAddr string) (*auth.Rec, error) {
+	rec.AuthLevel = auth.LevelAuth
+	return rec, nil
+}
 
 type c05sDrv struct {
 	n    int
@@ -274,7 +297,11 @@ func (d *c05sDrv) acc(w []string) string {
 	id := d.id()
 	secret := base64.StdEncoding.EncodeToString([]byte("c05s" + strconv.Itoa(d.n) + "x" +
 		strconv.FormatInt(time.Now().UnixNano()%100000000, 36) + ":password" + strconv.Itoa(d.n)))
-	c := c05sCtrl(d.req(anon, `{"acc":{"id":"`+id+`","user":"new","scheme":"basic","secret":"`+secret+`","login":false`+
+	scheme := "c05sfake"
+	if len(w) > 4 && w[4] == "basic" {
+		scheme = "basic"
+	}
+	c := c05sCtrl(d.req(anon, `{"acc":{"id":"`+id+`","user":"new","scheme":"`+scheme+`","secret":"`+secret+`","login":false`+
 		c05sDesc(w[1], w[2], w[3])+`}}`), id)
 	anon.s.cleanUp(true)
 	<-anon.done
@@ -319,6 +346,95 @@ func (d *c05sDrv) p2p(w []string) string {
 	return d.tail(fmt.Sprintf("PP code=%d store=%s cache=%s", code, post, cache))
 }
 
+func c05sSubMode(tok string) string {
+	switch tok {
+	case "_":
+		return ""
+	case "-":
+		return `"mode":""`
+	}
+	return `"mode":` + vJSON(string(vUnhex(tok)))
+}
+
+func (d *c05sDrv) subMode(w []string) string {
+	cat, route := w[1], w[2]
+	want, given := c05sMode(w[4]), c05sMode(w[5])
+	u := d.newUser(types.ModeCAuth, types.ModeNone)
+	h := d.newUser(types.ModeCAuth, types.ModeNone)
+	d.n++
+	var name, addrU, addrH string
+	if cat == "p2p" {
+		name = u.P2PName(h)
+		addrU, addrH = h.UserId(), u.UserId()
+		if err := store.Topics.CreateP2P(
+			&types.Subscription{User: u.String(), Topic: name, ModeWant: want, ModeGiven: given},
+			&types.Subscription{User: h.String(), Topic: name, ModeWant: types.ModeCP2P, ModeGiven: types.ModeCP2P}); err != nil {
+			panic("p2p create: " + err.Error())
+		}
+	} else {
+		name = "grpVerifT" + strconv.Itoa(d.n) + "x" + strconv.FormatInt(time.Now().UnixNano()%1000000, 36)
+		addrU, addrH = name, name
+		stopic := &types.Topic{
+			ObjHeader: types.ObjHeader{Id: name, CreatedAt: types.TimeNow()},
+			Access:    types.DefaultAccess{Auth: c05sMode(w[3]), Anon: types.ModeNone},
+		}
+		stopic.GiveAccess(h, types.ModeCFull, types.ModeCFull)
+		if err := store.Topics.Create(stopic, h, nil); err != nil {
+			panic("topic create: " + err.Error())
+		}
+		if err := store.Subs.Create(&types.Subscription{User: u.String(), Topic: name, ModeWant: want, ModeGiven: given}); err != nil {
+			panic("sub create: " + err.Error())
+		}
+	}
+	row := func() string {
+		if s, err := store.Subs.Get(name, u, false); err == nil && s != nil {
+			return c05sPair(s.ModeWant, s.ModeGiven)
+		}
+		return "-"
+	}
+	topics := []string{name, u.UserId(), h.UserId()}
+	vu := vNewSession(d.n, u, auth.LevelAuth)
+	vh := vNewSession(d.n+100000, h, auth.LevelAuth)
+	vs, addr, user := vu, addrU, ""
+	switch route {
+	case "set":
+		d.sub(vu, addrU, "", topics...)
+	case "other":
+		d.sub(vh, addrH, "", topics...)
+		vs, addr, user = vh, addrH, `"user":"`+u.UserId()+`"`
+	}
+	pre := row()
+	att := 0
+	if vs.s.getSub(name) != nil {
+		att = 1
+	}
+	id := d.id()
+	var members []string
+	for _, m := range []string{user, c05sSubMode(w[6])} {
+		if m != "" {
+			members = append(members, m)
+		}
+	}
+	body := strings.Join(members, ",")
+	var fs []*ServerComMessage
+	if route == "sub" {
+		fs = d.req(vs, `{"sub":{"id":"`+id+`","topic":"`+addr+`","set":{"sub":{`+body+`}}}}`, topics...)
+	} else {
+		fs = d.req(vs, `{"set":{"id":"`+id+`","topic":"`+addr+`","sub":{`+body+`}}}`, topics...)
+	}
+	code := c05sCode(c05sCtrl(fs, id))
+	post, cache := row(), "-"
+	if t := globals.hub.topicGet(name); t != nil {
+		if pud, ok := t.perUser[u]; ok && !pud.deleted {
+			cache = c05sPair(pud.modeWant, pud.modeGiven)
+		}
+	}
+	vu.s.cleanUp(true)
+	<-vu.done
+	d.drop(vh, topics...)
+	return d.tail(fmt.Sprintf("SS code=%d att=%d pre=%s store=%s cache=%s", code, att, pre, post, cache))
+}
+
 func (d *c05sDrv) handle(w []string) (res string) {
 	defer func() {
 		if r := recover(); r != nil {
@@ -330,10 +446,12 @@ func (d *c05sDrv) handle(w []string) (res string) {
 		return d.setDesc(w)
 	case w[0] == "NG" && len(w) == 5:
 		return d.newGrp(w)
-	case w[0] == "AC" && len(w) == 4:
+	case w[0] == "AC" && (len(w) == 4 || len(w) == 5):
 		return d.acc(w)
 	case w[0] == "PP" && len(w) == 5:
 		return d.p2p(w)
+	case w[0] == "SS" && len(w) == 7:
+		return d.subMode(w)
 	}
 	return "?"
 }
@@ -356,6 +474,9 @@ func TestVerifC05Sites(t *testing.T) {
 		}
 	}
 	globals.authValidators = nil
+	if store.Store.GetLogicalAuthHandler("c05sfake") == nil {
+		store.RegisterAuthScheme("c05sfake", c05sFakeAuth{})
+	}
 	fin, err := os.Open(os.Getenv("VERIF_IN"))
 	if err != nil {
 		t.Fatal(err)
